@@ -14,6 +14,6 @@ Print Assumptions C05_dns_decode_total.
 
 (* the name decoder alone, from any offset *)
 Theorem C05_dns_name_total : forall buf c, is_panic (get_name buf c) = false /\ get_name buf c <> Err E_FUEL.
-Proof. exact (fun buf c => good_spec _ (get_name_good buf c)). Qed.
+Proof. exact get_name_total. Qed.
 Check C05_dns_name_total : forall buf c, is_panic (get_name buf c) = false /\ get_name buf c <> Err E_FUEL.
 Print Assumptions C05_dns_name_total.
